@@ -22,6 +22,7 @@ func init() {
 			{ID: "C19.1", Desc: "index append is de-duplicated by response id", Run: ruleC19_1, MinSites: 1},
 			{ID: "C19.2", Desc: "invalidation is complete", Run: func(c *Ctx) { ruleC07_4(c); renameRule(c, "C07.4", "C19.2") }, MinSites: 4},
 			{ID: "C19.3", Desc: "ids are a function of key and selecting values", Run: func(c *Ctx) { ruleIDPure(c, "C19.3") }, MinSites: 1},
+			{ID: "C19.8", Desc: "a failed write to the file-system backend leaves no temporary file behind (the directory does not grow with failures)", Run: func(c *Ctx) { ruleC15_1(c); renameRule(c, "C15.1", "C19.8") }, MinSites: 1},
 			{ID: "C19.7", Desc: "the index reader hands out every listed reference (only null elements are dropped)", Run: ruleC19_7, MinSites: 1},
 			{ID: "C19.5", Desc: "values written to the JSON index survive the encoding", Run: func(c *Ctx) { ruleIndexValuesUTF8Safe(c, "C19.5") }, MinSites: 1},
 		},
@@ -40,7 +41,7 @@ func init() {
 			{ID: "C20.3", Desc: "timeout context wiring", Run: ruleC20_3, MinSites: 2},
 			{ID: "C20.4", Desc: "timeout defaulting", Run: ruleC20_4, MinSites: 1},
 			{ID: "C20.5", Desc: "no stuck goroutine: buffered result channel, select on ctx.Done", Run: func(c *Ctx) { ruleBoundedWaits(c, "C20.5", false) }, MinSites: 3},
-			{ID: "C20.6", Desc: "background request is conditional and on a clone", Run: ruleC20_6, MinSites: 1},
+			{ID: "C20.6", Desc: "background request is conditional and on a clone", Run: func(c *Ctx) { ruleC20_6(c); ruleValidatorGuards(c, "C20.6") }, MinSites: 1},
 			{ID: "C20.7", Desc: "background failure is not returned to the caller", Run: ruleC20_7, MinSites: 1},
 		},
 	})
